@@ -6,6 +6,8 @@ package main
 // as the scenario demands; Cosmos-side and EVM-side state projected before and after.
 
 import (
+	ethtypes "github.com/ethereum/go-ethereum/core/types"
+	"bytes"
 	"encoding/json"
 	"flag"
 	"fmt"
@@ -37,6 +39,7 @@ type evmcGrant struct {
 	Expired bool   `json:"expired"`
 	Type    string `json:"type"` // delegate | undelegate | redelegate | cancel
 	Val     int    `json:"val"`  // allowed validator
+	Alloc2  string `json:"alloc2"` // type ibc: limit of a second allocation (transfer/channel-1) in the same authorization; "" = none, "unl"
 }
 
 type evmcSetup struct {
@@ -52,6 +55,7 @@ type evmcSetup struct {
 	TxValue string            `json:"txValue"` // value attached to the top-level tx (only when top is a call)
 	Denom2  bool              `json:"denom2"`  // rewards also in a second denomination
 	Gas     uint64            `json:"gas"`     // gas limit of the transaction under test (default 3,000,000)
+	Acl     bool              `json:"acl"`     // EIP-2930 transaction whose access list names every contract of the tree and the roles (all callees warm)
 }
 
 type evmcScenario struct {
@@ -202,8 +206,11 @@ func (r *evmcRun) project(ctx sdk.Context) M {
 					}
 				}
 			}
-			// ICS-20 transfer authorization (allocation of transfer/channel-0)
-			em["ibc"], ev["ibc"], ex["ibc"] = "none", []string{}, "-"
+			// ICS-20 transfer authorization: "ibc" / "ibc1" = spend limit of the allocation for transfer/channel-0 /
+			// channel-1 ("none": no such allocation or no limit for the denomination), "ibcx" = the authorization itself
+			for _, t := range []string{"ibc", "ibc1", "ibcx"} {
+				em[t], ev[t], ex[t] = "none", []string{}, "-"
+			}
 			if a, exp := app.AuthzKeeper.GetAuthorization(ctx, r.addrs[e], r.addrs[g], sdk.MsgTypeURL(&transfertypes.MsgTransfer{})); a != nil {
 				if exp == nil {
 					ex["ibc"] = "never"
@@ -211,25 +218,28 @@ func (r *evmcRun) project(ctx sdk.Context) M {
 					ex["ibc"] = fmt.Sprint(exp.Unix() - GenesisTime.Unix())
 				}
 				if exp != nil && !exp.After(ctx.BlockTime()) {
-					em["ibc"] = "expired"
+					em["ibc"], em["ibc1"], em["ibcx"] = "expired", "expired", "expired"
 				} else if ta, ok := a.(*transfertypes.TransferAuthorization); ok {
-					em["ibc"] = "other"
+					em["ibcx"] = "yes"
 					chs := []string{}
 					for _, al := range ta.Allocations {
 						chs = append(chs, al.SourceChannel)
-						if al.SourcePort == "transfer" && al.SourceChannel == "channel-0" {
-							amt := al.SpendLimit.AmountOf(utils.BaseDenom)
-							if amt.Equal(transfertypes.UnboundedSpendLimit()) {
-								em["ibc"] = "unl"
-							} else {
-								em["ibc"] = bigStr(amt)
-							}
+						key := map[string]string{"channel-0": "ibc", "channel-1": "ibc1"}[al.SourceChannel]
+						if al.SourcePort != "transfer" || key == "" {
+							continue
+						}
+						if found, c := al.SpendLimit.Find(utils.BaseDenom); !found {
+							em[key] = "empty"
+						} else if c.Amount.Equal(transfertypes.UnboundedSpendLimit()) {
+							em[key] = "unl"
+						} else {
+							em[key] = bigStr(c.Amount)
 						}
 					}
 					sort.Strings(chs)
 					ev["ibc"] = chs
 				} else {
-					em["ibc"] = "other"
+					em["ibcx"] = "other"
 				}
 			}
 			gm[e] = em
@@ -347,7 +357,15 @@ func evmcOne(tw *TraceWriter, scn int, src string, sc evmcScenario) {
 			if g.Val != 0 {
 				ch = fmt.Sprintf("channel-%d", 5+g.Val)
 			}
-			sa = &transfertypes.TransferAuthorization{Allocations: []transfertypes.Allocation{{SourcePort: "transfer", SourceChannel: ch, SpendLimit: limit}}}
+			allocs := []transfertypes.Allocation{{SourcePort: "transfer", SourceChannel: ch, SpendLimit: limit}}
+			if g.Alloc2 != "" {
+				l2 := sdk.NewCoins(sdk.NewCoin(utils.BaseDenom, transfertypes.UnboundedSpendLimit()))
+				if g.Alloc2 != "unl" {
+					l2 = sdk.NewCoins(coin(g.Alloc2))
+				}
+				allocs = append(allocs, transfertypes.Allocation{SourcePort: "transfer", SourceChannel: "channel-1", SpendLimit: l2})
+			}
+			sa = &transfertypes.TransferAuthorization{Allocations: allocs}
 		} else {
 			var err error
 			sa, err = stakingtypes.NewStakeAuthorization([]sdk.ValAddress{w.Vals[g.Val%len(w.Vals)].ValAddr()}, nil, stakeTypeOf[g.Type], lim)
@@ -477,8 +495,23 @@ func evmcOne(tw *TraceWriter, scn int, src string, sc evmcScenario) {
 			gasLimit = 39_000_000
 		}
 	}
-	msg, err := BuildEthMsg(S, EthTxOpts{Type: 0, Nonce: nonce, To: toPtr, Value: value, Gas: gasLimit, GasPrice: gp, Data: data,
-		ChainID: n.App.EvmKeeper.ChainID()})
+	opts := EthTxOpts{Type: 0, Nonce: nonce, To: toPtr, Value: value, Gas: gasLimit, GasPrice: gp, Data: data, ChainID: n.App.EvmKeeper.ChainID()}
+	if sc.Setup.Acl {
+		opts.Type = 1
+		var addrs []common.Address
+		for a := range codes {
+			addrs = append(addrs, a)
+		}
+		for _, role := range []string{"S", "T", "W"} {
+			addrs = append(addrs, common.BytesToAddress(r.addrs[role].Bytes()))
+		}
+		addrs = append(addrs, to, stakingPC, distrPC, ics20PC)
+		sort.Slice(addrs, func(i, j int) bool { return bytes.Compare(addrs[i][:], addrs[j][:]) < 0 })
+		for _, a := range addrs {
+			opts.Access = append(opts.Access, ethtypes.AccessTuple{Address: a})
+		}
+	}
+	msg, err := BuildEthMsg(S, opts)
 	if err != nil {
 		panic(err)
 	}
